@@ -21,6 +21,15 @@ ROOT = os.path.dirname(os.path.dirname(os.path.abspath(__file__)))
 REPO = os.environ.get('VERIF_REPO', '/repo')
 
 
+def drop_facts(work):
+    """remove the exported facts of a scratch copy (check keys them by the copy's path)"""
+    import hashlib
+    cache = os.environ.get('VERIF_CACHE', os.path.join(ROOT, '.cache'))
+    sfx = '-' + hashlib.sha1(work.encode()).hexdigest()[:8]
+    for c in ('P', 'W'):
+        shutil.rmtree(os.path.join(cache, 'facts-' + c + sfx), ignore_errors=True)
+
+
 def main():
     props = sys.argv[1:]
     patches = sorted(glob.glob(os.path.join(ROOT, 'selftest', 'mutants', '*.patch')))
@@ -58,6 +67,7 @@ def main():
                 results.append((name, 'SURVIVED', 'exit=%d keys=%s' % (r.returncode, keys[:4])))
     finally:
         shutil.rmtree(scratch, ignore_errors=True)
+        drop_facts(work)
     # behaviour-preserving variants: the checks of the named properties must stay silent (exit 0)
     benign = sorted(glob.glob(os.path.join(ROOT, 'selftest', 'benign', '*.patch')))
     if props:
@@ -89,6 +99,7 @@ def main():
                         results.append(('benign:%s@%s' % (name, prop), 'FALSE-ALARM', str(keys[:3])))
         finally:
             shutil.rmtree(scratch, ignore_errors=True)
+            drop_facts(work)
     bad = [r for r in results if r[1] != 'KILLED']
     for r in results:
         print('selftest: %-40s %s  %s' % r)
